@@ -8,6 +8,7 @@ INVARIANTS
   Progress
   Disjoint
   PPConserves
+  PPExitZeroMeansDelivered
   GrammarOK
 PROPERTY
   CutProp
